@@ -1057,8 +1057,12 @@ func (d *indirectIndex) DeleteRange(keys [][]byte, minTime, maxTime int64) {
 		existing := d.tombstones[string(k)]
 		d.mu.RUnlock()
 
-		// Append the new tombonstes to the existing ones
-		newTs := append(existing, append(tombstones[string(k)], TimeRange{minTime, maxTime})...)
+		// Append the new tombstones to a copy of the existing ones: the stored slice has been
+		// handed to readers by TombstoneRange and is sorted in place below.
+		newTs := make([]TimeRange, 0, len(existing)+len(tombstones[string(k)])+1)
+		newTs = append(newTs, existing...)
+		newTs = append(newTs, tombstones[string(k)]...)
+		newTs = append(newTs, TimeRange{minTime, maxTime})
 		fn := func(i, j int) bool {
 			a, b := newTs[i], newTs[j]
 			if a.Min == b.Min {
